@@ -775,6 +775,72 @@ func streamSplit(p *loadedPkg) (send, recv []sacc, sendM, recvM []string, err er
 	return
 }
 
+// keyInstallers: every function of package stream that installs a cipher (writes
+// Stream.gcm) - from then on the stream may carry protected frames in both
+// directions at once - together with whether it also freezes BOTH handshake digests
+// (calls finalizeSendDigest and finalizeRecvDigest, directly or through
+// FinalizeDigests, or assigns finalSendDigest and finalRecvDigest). The steady-state
+// disjointness of the send and receive paths rests on that.
+type keyInstaller struct {
+	fn         string
+	send, recv bool
+}
+
+func keyInstallers(p *loadedPkg) []keyInstaller {
+	var out []keyInstaller
+	for _, file := range p.Files {
+		for _, d := range file.Decls {
+			fd, ok := d.(*ast.FuncDecl)
+			if !ok || fd.Body == nil {
+				continue
+			}
+			w := writeTargets(fd.Body)
+			installs, send, recv := false, false, false
+			ast.Inspect(fd.Body, func(n ast.Node) bool {
+				sel, ok := n.(*ast.SelectorExpr)
+				if !ok {
+					return true
+				}
+				s, ok := p.Info.Selections[sel]
+				if !ok {
+					return true
+				}
+				nn := namedOf(s.Recv())
+				if nn == nil || nn.Obj().Name() != "Stream" {
+					return true
+				}
+				switch s.Kind() {
+				case types.FieldVal:
+					if w[sel] {
+						switch sel.Sel.Name {
+						case "gcm":
+							installs = true
+						case "finalSendDigest":
+							send = true
+						case "finalRecvDigest":
+							recv = true
+						}
+					}
+				case types.MethodVal:
+					switch sel.Sel.Name {
+					case "finalizeSendDigest":
+						send = true
+					case "finalizeRecvDigest":
+						recv = true
+					case "FinalizeDigests":
+						send, recv = true, true
+					}
+				}
+				return true
+			})
+			if installs {
+				out = append(out, keyInstaller{funcKey(p, fd), send, recv})
+			}
+		}
+	}
+	return out
+}
+
 // ---- broker stream I/O -----------------------------------------------------
 
 type brokerIO struct {
@@ -1012,6 +1078,16 @@ func factsC17(b *strings.Builder) error {
 		}
 		b.WriteString("].\n")
 	}
+	b.WriteString("Definition key_installers : list key_installer := [\n")
+	kis := keyInstallers(str)
+	for i, k := range kis {
+		sep := ";"
+		if i == len(kis)-1 {
+			sep = ""
+		}
+		fmt.Fprintf(b, "  mk_ki %s %v %v%s\n", coqStr(k.fn), k.send, k.recv, sep)
+	}
+	b.WriteString("].\n")
 	emit("stream_send", send)
 	emit("stream_recv", recv)
 	strs := func(xs []string) string {
